@@ -266,6 +266,7 @@ pub fn reach() -> i32 {
         want.push(format!("reach.{}", k));
     }
     want.push("fault_relaxations_used".into());
+    want.push("rule_q_exclusions".into());
     for k in &want {
         let n = c[k.as_str()].as_u64().unwrap_or(0);
         if n == 0 {
